@@ -175,6 +175,31 @@ func c09Reports(c *Case) []Violation {
 		gone, came := diffStrings(prev.CritIDs(), next.CritIDs())
 		sort.Strings(omitted)
 		sort.Strings(added)
+		// ... and about values: wherever the report lists "alternativesValues" for a criterion id (added, reversed
+		// criteria), these are the values the next stage holds for that criterion
+		var walk func(v interface{})
+		walk = func(v interface{}) {
+			switch x := v.(type) {
+			case map[string]interface{}:
+				id, hasID := x["id"].(string)
+				if av, ok := x["alternativesValues"].(map[string]interface{}); ok && hasID {
+					for _, a := range next.All() {
+						if rv, has := av[a.ID]; !has || asF(rv) != a.Values[id] {
+							vs = append(vs, viol(c, "C09/report-not-what-next-stage-received", "bias %d (%v) reports %v for alternative %s on criterion %s, the next stage received %v", k, asM(asL(req["biases"])[k])["name"], av[a.ID], a.ID, id, a.Values[id]))
+							return
+						}
+					}
+				}
+				for _, e := range x {
+					walk(e)
+				}
+			case []interface{}:
+				for _, e := range x {
+					walk(e)
+				}
+			}
+		}
+		walk(rep["props"])
 		if !sameStrings(gone, omitted) || !sameStrings(came, added) {
 			vs = append(vs, viol(c, "C09/report-not-what-next-stage-received", "bias %d (%v) reports omitted %v / added %v, the next stage received criteria without %v / with new %v", k, asM(asL(req["biases"])[k])["name"], omitted, added, gone, came))
 		}
@@ -267,6 +292,12 @@ func c09Run(s *Shard) {
 	// an omission that takes every criterion it receives (alone, after another omission, after an addition)
 	all1 := bias("criteriaOmission", M{"ratio": 1.0})
 	chains = append(chains, []M{all1}, []M{core[0], all1}, []M{core[4], all1}, []M{bias("criteriaOmission", M{"ratio": 0.0, "min": 3})})
+	// bounding that really clips what the bias generates (the reported value and the applied value are bounded alike)
+	for seed := 0; seed < 4; seed++ {
+		concB := bias("criteriaConcealment", withBounding(M{"randomSeed": seed, "newCriterionScaling": 2.0}, 3))
+		fatB := bias("fatigue", withBounding(M{"function": "const", "params": M{"value": 1.0}, "randomSeed": seed}, 3))
+		chains = append(chains, []M{concB}, []M{core[2], concB}, []M{fatB}, []M{concB, fatB})
+	}
 	for _, m := range allMethods {
 		for _, sub := range []bool{false, true} {
 			root := rootRequest(m, sub, false)
